@@ -70,6 +70,25 @@ CHECKS = {
     note='Trusted: a single-line comment is white space, a comment with a terminator acts as that terminator (7.4). One comment per text in T. The T leg is exploration.',
     technique='symbolic execution of the real lexer wrapper on symbolic token kinds (relational: with/without comments) + replay of comment placements',
     engine='SX+GX'),
+ 'C06': dict(
+    level=('other', 'P: the real Lexer.get_lexer_token/_update_newline_idx/_get_colno/lookup_colno run under SX on raw tokens whose offsets are sums of SYMBOLIC lengths and gaps and whose values carry 0-2 line terminators of SYMBOLIC kind (LF, CR, CRLF, U+2028, U+2029); z3 decides lineno, colno, lookup_colno and the whole newline index against a ghost count for all lengths. '
+                    'R: z3 regular-language lemmas on the live patterns (line-terminator rules generate exactly the five sequences, keywords are identifiers, master-pattern order of punctuators, value tokens never start with /). '
+                    'S: every string of length <= 3/4 over 56/38 class representatives through the real lexer: order, value == source slice, only ES5 white space in the gaps, line/column by independent count, longest punctuator.', 'DESIGN.md C06'),
+    note='Trusted: the split model is derived from the live compiled pattern by probing; ply strips t_ignore first and tries master alternatives in order. Outside: more than 2 terminators per token in P; longer inputs in S.',
+    technique='symbolic execution of the real lexer bookkeeping on symbolic lengths/terminator kinds (z3 Ints, finite domains) + z3 regular-language lemmas + exhaustive short-string enumeration',
+    engine='SX+RX'),
+ 'C07': dict(
+    level=('other', 'E: exhaustive over a bounded space - 16 scope skeletons (functions, closures, catch, accessors, labels, hoisting, named function expressions) x every assignment of their name slots over an order/equality-complete pool of 5/12 spellings x 4/6 printer configurations, plus scopes of 230 and 500 names (generated names reach do/if/in) - each judged by an independent ES5 scope resolver (binding partition equal, free / property / top-level names unchanged, no reserved word, output parses, differs from the plain output only in identifier tokens). '
+                    'N: NameGenerator under SX with a symbolic skipped symbol. The obfuscator inspects names only through ==, < and hashing, so its behaviour on a skeleton is determined by the equality/order pattern of the names, which the pool realises completely for <= 4 names; symbolic names through the real obfuscator were probed and rejected on cost (see DESIGN.md).', 'DESIGN.md C07'),
+    note='Trusted: ref/scopes_ref.py as the reading of ES5 scoping; the completeness argument for the pool. Outside: other scope shapes, more than 4 distinct source names per skeleton, with/eval, function declarations inside blocks (unspecified in ES5).',
+    technique='exhaustive enumeration of scope skeletons x name assignments judged by an independent scope resolver; symbolic execution (z3 strings) of the name generator',
+    engine='SX'),
+ 'C19': dict(
+    level=('other', 'Evaluation of a literal spelling is CPython C code (ast.literal_eval) and cannot be executed symbolically here; that half is decided by differential enumeration against json.loads over boundary spellings (escapes, exponents, fractions, negative zero, unicode) x shapes x binding contexts x fold_ops. '
+                    'The structural half runs the real extractor under SX with every string/number leaf spelling a z3 string and literal_eval an uninterpreted marker: for all spellings the value under the bound name is the literal structure with literal_eval applied to exactly each leaf (negation outside), nothing else added; the code never branches on a spelling, so these obligations are discharged syntactically (0 solver queries - stated).', 'DESIGN.md C19'),
+    note='Honest scope: the solver contributes nothing to the evaluation half; it is enumeration. Known deviations of literal_eval vs JSON (\\/ , surrogate pairs) are outside the enumerated spellings unless listed as findings.',
+    technique='symbolic execution with uninterpreted literal evaluation (structure) + differential enumeration vs json.loads (evaluation)',
+    engine='SX'),
  'C08': dict(
     level=('other', 'Inductive per production: the node every real p_* action builds from SYMBOLIC slot positions (z3 Ints, symbolic newline index) is printed by the real pretty, minify and obfuscating printers; for every fragment with an explicit position z3 decides - for all layouts at once - that it is the position of a token of the production spelled like the fragment (or like the recorded original name). '
                     'Backed by a replay leg over corpus x 6 layouts (LF, CR, CRLF, U+2028/9, multi-line tokens) x 3 printers x comments on/off with two files chained, judged against the source text.', 'DESIGN.md C08'),
